@@ -13,34 +13,35 @@ def toGo (s : Hdr) : GoSlice := { arr := s.arr, start := s.off, len := s.len, ca
 theorem subslice_spec' (s : Hdr) (low : Int) (high max : Option Int) :
     (subslice s low high max = none ↔ ¬ inRange s.len s.cap low high max) ∧
     (∀ r, subslice s low high max = some r → toGo r = GV.Spec.Slice.subslice (toGo s) low high max) := by
-  unfold subslice inRange
-  constructor
-  · constructor
-    · intro h
-      split at h
-      · omega
-      · split at h <;> simp at h
-    · intro h
-      rw [if_pos (by omega)]
-  · intro r h
-    split at h
-    · simp at h
-    · split at h
-      · simp only [Option.some.injEq] at h
-        subst h
-        simp only [GV.Spec.Slice.subslice, toGo, *, if_true]
-      · simp only [Option.some.injEq] at h
-        subst h
-        simp only [GV.Spec.Slice.subslice, toGo, *]
-        simp
+  unfold subslice GV.Spec.Slice.subslice inRange toGo
+  dsimp only
+  generalize high.getD (s.len : Int) = hi
+  generalize max.getD (s.cap : Int) = mx
+  by_cases hb : low < 0 ∨ hi < low ∨ mx < hi ∨ hi > s.cap ∨ mx > s.cap
+  · rw [if_pos hb]
+    exact ⟨⟨fun _ => by omega, fun _ => rfl⟩, fun r h => by simp at h⟩
+  · rw [if_neg hb]
+    by_cases hn : s.isNil = true
+    · rw [if_pos hn, if_pos hn]
+      refine ⟨⟨fun h => by simp at h, fun h => by omega⟩, ?_⟩
+      intro r h
+      simp only [Option.some.injEq] at h
+      subst h
+      rfl
+    · rw [if_neg hn, if_neg hn]
+      refine ⟨⟨fun h => by simp at h, fun h => by omega⟩, ?_⟩
+      intro r h
+      simp only [Option.some.injEq] at h
+      subst h
+      rfl
 
 theorem getArr_set_same {α} (A : Arrays α) (id : Nat) (l : List α) (h : id < A.length) :
     getArr (A.set id l) id = l := by
-  simp [getArr, List.getD_eq_getElem?_getD, List.getElem?_set, h]
+  simp [getArr, List.getD_eq_getElem?_getD, h]
 
 theorem getArr_set_other {α} (A : Arrays α) (id j : Nat) (l : List α) (h : j ≠ id) :
     getArr (A.set id l) j = getArr A j := by
-  simp [getArr, List.getD_eq_getElem?_getD, List.getElem?_set, Ne.symm h]
+  simp [getArr, List.getD_eq_getElem?_getD, Ne.symm h]
 
 theorem getArr_append_left {α} (A : Arrays α) (l : List α) (id : Nat) (h : id < A.length) :
     getArr (A ++ [l]) id = getArr A id := by
@@ -99,5 +100,140 @@ theorem copySlice_spec {α} (k : Kind) (A : Arrays α) (dst src : Hdr)
     exact getArr_set_other _ _ _ _ hid
 
 theorem calculateNewCapacity_ge (m o : Nat) : m ≤ calculateNewCapacity m o := Nat.le_max_left _ _
+
+/-- `$append` within capacity: the shared backing array receives `vals` in cells `[off+len, off+len+n)` and nothing else -/
+theorem append_inplace {α} (k : Kind) (zero : α) (A : Arrays α) (s : Hdr) (vals : List α)
+    (hwf : s.wf A) (hn : vals.length ≠ 0) (hfit : ¬ s.len + vals.length > s.cap) :
+    append k zero A s vals =
+      { arrays := A.set s.arr (moveCells (getArr A s.arr) vals (s.off + s.len) 0 vals.length),
+        hdr := { arr := s.arr, off := s.off, len := s.len + vals.length, cap := s.cap, isNil := false },
+        reusedElemObjects := false } := by
+  obtain ⟨h1, h2⟩ := hwf
+  unfold append internalAppend growSlice
+  rw [if_neg hn]
+  simp only [if_neg hfit]
+  rw [copyArray_spec _ _ _ _ _ _ _ _ (by intro h; cases h) (by omega) (by omega)]
+
+/-- `$append` beyond capacity: a NEW array is allocated holding the old elements, then `vals`, then zero values;
+    no existing array is written -/
+theorem append_realloc {α} (k : Kind) (zero : α) (A : Arrays α) (s : Hdr) (vals : List α)
+    (hwf : s.wf A) (hbig : s.len + vals.length > s.cap) :
+    append k zero A s vals =
+      { arrays := (A ++ [view A s ++ List.replicate (calculateNewCapacity (s.len + vals.length) s.cap - s.len) zero]).set A.length
+            (moveCells (view A s ++ List.replicate (calculateNewCapacity (s.len + vals.length) s.cap - s.len) zero) vals s.len 0 vals.length),
+        hdr := { arr := A.length, off := 0, len := s.len + vals.length,
+                 cap := calculateNewCapacity (s.len + vals.length) s.cap, isNil := false },
+        reusedElemObjects := k == .spine && decide (s.len > 0) } := by
+  obtain ⟨h1, h2⟩ := hwf
+  have hn : vals.length ≠ 0 := by omega
+  have hcap := calculateNewCapacity_ge (s.len + vals.length) s.cap
+  unfold append internalAppend growSlice
+  rw [if_neg hn]
+  simp only [if_pos hbig, getArr_append_new, view, Nat.zero_add]
+  have hl : (List.take s.len (List.drop s.off (getArr A s.arr))).length = s.len := by
+    simp only [List.length_take, List.length_drop]; omega
+  rw [copyArray_spec _ _ _ _ _ _ _ _ (by intro h; cases h)
+    (by simp only [List.length_append, List.length_replicate, hl]; omega) (by omega)]
+
+/-- **append** as the Go specification demands, for every well-formed header and every list of values:
+    length and contents; reallocation iff `len + n > cap`; within capacity only the cells `[len, len+n)` behind the
+    window are written; beyond capacity no existing array is written; `cap ≥ len` and the header stays well-formed. -/
+theorem append_spec' {α} (k : Kind) (zero : α) (A : Arrays α) (s : Hdr) (vals : List α)
+    (hwf : s.wf A) (harr : s.arr < A.length) :
+    view (append k zero A s vals).arrays (append k zero A s vals).hdr = view A s ++ vals ∧
+    (append k zero A s vals).hdr.len = s.len + vals.length ∧
+    (append k zero A s vals).hdr.wf (append k zero A s vals).arrays ∧
+    (((append k zero A s vals).hdr.arr ≠ s.arr) ↔ (vals ≠ [] ∧ mustReallocate s.len s.cap vals.length)) ∧
+    ((append k zero A s vals).hdr.arr = s.arr →
+        (append k zero A s vals).hdr.off = s.off ∧ (append k zero A s vals).hdr.cap = s.cap ∧
+        getArr (append k zero A s vals).arrays s.arr
+          = moveCells (getArr A s.arr) vals (s.off + s.len) 0 vals.length ∧
+        ∀ id, id ≠ s.arr → getArr (append k zero A s vals).arrays id = getArr A id) ∧
+    ((append k zero A s vals).hdr.arr ≠ s.arr →
+        ∀ id, id < A.length → getArr (append k zero A s vals).arrays id = getArr A id) := by
+  have hwf' := hwf
+  obtain ⟨h1, h2⟩ := hwf
+  by_cases hn : vals.length = 0
+  · have hv : vals = [] := List.eq_nil_of_length_eq_zero hn
+    subst hv
+    have he : append k zero A s [] = { arrays := A, hdr := s, reusedElemObjects := false } := by
+      simp [append, internalAppend]
+    rw [he]
+    refine ⟨by simp, by simp, hwf', ?_, ?_, ?_⟩
+    · simp
+    · intro _
+      refine ⟨rfl, rfl, ?_, fun _ _ => rfl⟩
+      rw [moveCells_eq_seg]
+      simp only [List.length_nil, seg_empty]
+    · intro h; exact absurd rfl h
+  · by_cases hbig : s.len + vals.length > s.cap
+    · rw [append_realloc k zero A s vals hwf' hbig]
+      have hcap := calculateNewCapacity_ge (s.len + vals.length) s.cap
+      have hvl : (view A s).length = s.len := by
+        simp only [view, List.length_take, List.length_drop]; omega
+      have hne : A.length ≠ s.arr := by omega
+      have hlen : (A ++ [view A s ++ List.replicate (calculateNewCapacity (s.len + vals.length) s.cap - s.len) zero]).length
+          = A.length + 1 := by simp
+      dsimp only
+      refine ⟨?_, rfl, ?_, ?_, ?_, ?_⟩
+      · have hm := view_moveCells (view A s ++ List.replicate (calculateNewCapacity (s.len + vals.length) s.cap - s.len) zero)
+          vals 0 s.len 0 vals.length
+          (by simp only [List.length_append, List.length_replicate, hvl]; omega) (by omega)
+        simp only [Nat.zero_add, List.drop_zero] at hm
+        rw [List.take_left' hvl, List.take_length] at hm
+        rw [← hm]
+        simp only [view]
+        rw [getArr_set_same _ _ _ (by simp), List.drop_zero]
+      · constructor
+        · dsimp only; omega
+        · dsimp only
+          rw [getArr_set_same _ _ _ (by simp), moveCells_eq_seg,
+            seg_length _ _ _ _ _ _ (Nat.zero_le _)
+              (by simp only [List.length_append, List.length_replicate, hvl]; omega) (by omega)]
+          simp only [List.length_append, List.length_replicate, hvl]; omega
+      · constructor
+        · intro _
+          exact ⟨fun h => hn (by rw [h]; rfl), hbig⟩
+        · intro _; exact hne
+      · intro h; exact absurd h hne
+      · intro _ id hid
+        rw [getArr_set_other _ _ _ _ (by omega), getArr_append_left _ _ _ hid]
+    · rw [append_inplace k zero A s vals hwf' hn hbig]
+      dsimp only
+      refine ⟨?_, rfl, ?_, ?_, ?_, ?_⟩
+      · unfold view
+        dsimp only
+        rw [getArr_set_same _ _ _ harr]
+        have hm := view_moveCells (getArr A s.arr) vals s.off s.len 0 vals.length (by omega) (by omega)
+        rw [hm, List.drop_zero, List.take_length]
+      · constructor
+        · dsimp only; omega
+        · dsimp only
+          rw [getArr_set_same _ _ _ harr, moveCells_eq_seg,
+            seg_length _ _ _ _ _ _ (Nat.zero_le _) (by omega) (by omega)]
+          exact h2
+      · constructor
+        · intro h; exact absurd rfl h
+        · intro h; exact absurd h.2 hbig
+      · intro _
+        exact ⟨rfl, rfl, getArr_set_same _ _ _ harr, fun id hid => getArr_set_other _ _ _ _ hid⟩
+      · intro h; exact absurd rfl h
+
+/-- struct/array element objects are shared between the old and the new backing array exactly when a
+    non-empty slice of such elements is reallocated (`array.slice` is shallow, prelude.js:494) -/
+theorem append_reused {α} (k : Kind) (zero : α) (A : Arrays α) (s : Hdr) (vals : List α) (hwf : s.wf A) :
+    (append k zero A s vals).reusedElemObjects = true ↔
+      (k = .spine ∧ s.len > 0 ∧ s.len + vals.length > s.cap) := by
+  by_cases hbig : s.len + vals.length > s.cap
+  · rw [append_realloc k zero A s vals hwf hbig]
+    cases k <;> simp [hbig]
+  · by_cases hn : vals.length = 0
+    · have hv : vals = [] := List.eq_nil_of_length_eq_zero hn
+      subst hv
+      simp [append, internalAppend]
+      intro _ _
+      exact hwf.1
+    · rw [append_inplace k zero A s vals hwf hn hbig]
+      simp [hbig]
 
 end GV.Slice
